@@ -709,6 +709,8 @@ class CoreMixin:
             v = st.heap[key]
             if v.op != "Undefined":
                 return v
+        if obj.extra and name in obj.extra.get("record_fields", {}):
+            return obj.extra["record_fields"][name]     # immutable record (named tuple): known wherever it was created
         ci = obj.extra.get("cls") if obj.extra else None
         if ci is None:
             n = self.mk("State", (obj,), name, site)
